@@ -33,8 +33,20 @@ def verify_keys(P, R, keys, verbose=True):
         t0 = time.time()
         obs = eng.verify_function(fi, c)
         tg = time.time() - t0
+        pend = []
         for ob in obs:
-            solve.discharge(ob)
+            text = solve.discharge_quick(ob)
+            if text is not None:
+                pend.append((ob, text))
+        if pend:
+            import multiprocessing as mp
+            with mp.Pool(min(16, len(pend))) as pool:
+                done = pool.map(solve.finish_pending, [(o.ident, t, o.detail) for o, t in pend], chunksize=1)
+            for (o, _t), d in zip(pend, done):
+                o.status, o.backend, o.time_s, o.detail = d["status"], d["backend"], o.time_s + d["time_s"], d["detail"] or o.detail
+        for o in obs:
+            if o.status == "dead-exit":
+                o.status = "discharged"
         bad = [o for o in obs if o.status not in ("discharged", "trivial")]
         if verbose:
             print(f"== {key}: {len(obs)} obligations, gen {tg:.2f}s, paths {eng.paths_explored}, undischarged {len(bad)}")
